@@ -202,7 +202,15 @@ func runC12(seed uint64, ncases int, outPath string, replaySeed uint64, hasRepla
 			cseed = replaySeed
 		}
 		rich := ci%5 != 0
-		w := genWorld(cseed, rich)
+		// a quarter of the networks (decided by the case seed, so that a replay rebuilds the same one) are built
+		// bottom-up with an op log that the builder model replays (record B)
+		var w *world
+		var opLog *SX
+		if cseed%4 == 3 {
+			w, opLog = genFlat(cseed)
+		} else {
+			w = genWorld(cseed, rich)
+		}
 		id := fmt.Sprintf("c%d", ci)
 		rp := make([]byte, 8)
 		pr := &rng{s: cseed ^ 0xabcdef}
@@ -215,6 +223,9 @@ func runC12(seed uint64, ncases int, outPath string, replaySeed uint64, hasRepla
 		origCanon := Canon(origSX).String()
 		size := len(origCanon)
 		fmt.Fprintf(out, "N %s %s\n", id, origSX.String())
+		if opLog != nil {
+			fmt.Fprintf(out, "B %s %s\n", id, opLog.String())
+		}
 		st.cases++
 		for k, v := range w.hist {
 			st.hist[k] += v
